@@ -43,6 +43,13 @@ def check(ctx):
         ctx.guarded(o, lambda o, S=S: sched_fill.selectors(ctx, o, S))
 
     for S in BOTH:
+        o = ctx.ob(f"{S['name']}_leaf_dates_share_one_encoding", 'R8',
+                   f"{S['name']}: the start and the end of a leaf are both `day boundary +/- 1 day * booked share of that day` over "
+                   f"the same resource/day/selector; a start taken from anything else (the requested moment, the raw capacity) can "
+                   f"pass the end of a short task", floor=2)
+        ctx.guarded(o, lambda o, S=S: sched_fill.encoding(ctx, o, PassShape(ctx, S)))
+
+    for S in BOTH:
         o = ctx.ob(f"{S['name']}_every_call_schedules_every_task", 'R9',
                    f"{S['name']}: the memo that makes the pass skip scheduled tasks is allocated per calc call (a memo that survives "
                    f"on the scheduler makes a repeated calc skip tasks: no dates, no roll-ups)")
